@@ -39,12 +39,14 @@ WEIGHTED = ("ad", "ac", "az", "az1", "an", "at", "zop")
 #   an  : weights of both signs (every other edge negative)          at : all weights equal (2.0): ties everywhere
 # plus, on every root: vertex numbers -1 and n (just outside [0, n-1]) and masks of length n-1 and n+1.
 B_VARIANTS = ["az", "az1", "zop", "an", "at"]
-# menpo hands its csr matrix to scipy.csgraph, which reads an explicitly stored zero as a zero-weight EDGE although
-# menpo documents a zero as a non-edge: find_path / find_shortest_path / find_all_shortest_paths /
-# minimum_spanning_tree / the Tree constructor / PointTree.from_mask are wrong on such matrices on the unchanged
-# tree (reported).  While this is False the stored-zero letters get every query that does not go through csgraph
-# (static queries, cycle / tree tests, masks of graphs); set it to True once /repo treats stored zeros as non-edges.
-ZERO_WEIGHT_CSGRAPH_OPS = False
+# A stored zero is documented as a non-edge.  Construction letters (az, az1): since the fix D35 the constructor drops
+# explicitly stored zeros, so every query - also those menpo delegates to scipy.csgraph, which would read a stored
+# zero as a zero-weight edge - is asked there (revert-D35 must be caught).
+ZERO_WEIGHT_CSGRAPH_OPS = True
+# 'zop' letters assign 0 into the public adjacency_matrix AFTER construction: that changes a public attribute behind
+# the object's back and is outside the property; they keep only the queries that never reach csgraph (static
+# queries, cycle / tree tests, masks of graphs).
+ZOP_CSGRAPH_OPS = False
 
 # "argument form" letters: the same payload presented in every form the unchanged tree accepts (probed on /repo:
 # an outer tuple of edges, float vertex numbers, float16 / non-csr / list adjacency, list points, integer or list
@@ -189,7 +191,7 @@ class C14(Check):
     def _boundary_roots(self):
         out = []
         zmode = "full" if ZERO_WEIGHT_CSGRAPH_OPS else "lite"
-        modes = {"az": zmode, "az1": zmode, "zop": zmode, "an": "full", "at": "full"}
+        modes = {"az": zmode, "az1": zmode, "zop": "full" if ZOP_CSGRAPH_OPS else "lite", "an": "full", "at": "full"}
         for n in range(1, 5):
             for bits in range(2 ** len(und_pairs(n))):
                 for cls in ("A", "P"):
@@ -509,7 +511,7 @@ class C14(Check):
             "mode": mode,
             "ctor": (how, arg, cls),
             "family": False,
-            "zeros": variant in ("az", "az1"),
+            "zeros": "built" if variant in ("az", "az1") else None,
         }
 
     # ---- families
@@ -612,7 +614,12 @@ class C14(Check):
         return m.weights_defined and (all(w > 0 for w in m.w.values()) or (m.directed and not m.has_cycle()))
 
     def _csgraph_ok(self, st):
-        return ZERO_WEIGHT_CSGRAPH_OPS or not st.get("zeros")
+        z = st.get("zeros")
+        if z == "assigned":
+            return ZOP_CSGRAPH_OPS
+        if z == "built":
+            return ZERO_WEIGHT_CSGRAPH_OPS
+        return True
 
     def _sp_letters(self, st):
         m = st["m"]
@@ -667,6 +674,8 @@ class C14(Check):
         out = [("built",), ("static",)]
         if is_tree_obj:
             out.append(("tree",))
+        if mode == "full" and not self._csgraph_ok(st):
+            mode = "lite"
         astree = m.directed and not is_tree_obj and level == 0 and n >= 2 and st["ctor"] is not None and self._csgraph_ok(st)
         if level == 0 and mode != "static" and st.get("vc", int) is int:
             # just outside the vertex range [0, n-1] and the mask length n
@@ -1024,6 +1033,8 @@ class C14(Check):
         if length != D[s, e]:
             return [Failure("find_shortest_path", "route-not-shortest", ctx + ": the route weighs %r, Floyd-Warshall distance is %r" % (length, D[s, e]))]
         hops = min(len(route) - 1, 4)
+        if st.get("zeros") == "built":
+            self.note("sp:stored-zero-letter")
         if not unw and any(w < 0 for w in m.w.values()):
             self.note("sp:negative-weights-%s" % ("negative-distance" if D[s, e] < 0 else "other"))
         if cost == D[s, e]:
@@ -1073,6 +1084,8 @@ class C14(Check):
         F += self._static(t, tm, st["pts"], want, where)
         F += self._tree(t, tm, r, where)
         self.note("mst:%s" % ("ok" if not F else "fail"))
+        if not F and st.get("zeros") == "built":
+            self.note("mst:stored-zero-letter")
         if not F and any(w < 0 for w in m.w.values()):
             self.note("mst:negative-weights-ok")
         if not F and len(set(m.w.values())) == 1 and len(m.w) > 2 * (n - 1):
@@ -1114,7 +1127,7 @@ class C14(Check):
             g.adjacency_matrix[b, a] = 0
         arcs = {e: w for e, w in m.w.items() if e != (a, b) and (m.directed or e != (b, a))}
         m2 = RefGraph(m.n, m.directed, arcs, m.weights_defined)
-        st.update(m=m2, zeros=True, ctor=None)
+        st.update(m=m2, zeros="assigned", ctor=None)
         if not verify:
             return []
         self._dist_ok = self._csgraph_ok(st)
@@ -1251,6 +1264,7 @@ class C14(Check):
         out = ["outcome %s never produced" % n for n in need if not notes.get(n)]
         for tag in (
             ["bnd-ok:%s:%s" % (v, k) for v in B_VARIANTS for k in ("U", "D")]
+            + (["bnd-ok:az:T", "bnd-ok:az1:T", "sp:stored-zero-letter", "mst:stored-zero-letter"] if ZERO_WEIGHT_CSGRAPH_OPS else [])
             + ["bnd-ok:an:T", "bnd-ok:at:T", "zero-op:ok", "oor:below:refused", "oor:above:refused", "masklen:short:refused", "masklen:long:refused"]
             + ["sp:negative-weights-negative-distance", "mst:negative-weights-ok", "mst:all-weights-tied-ok"]
             + ["bnd-ok:one-vertex-family:%s" % c for c in ("UndirectedGraph", "DirectedGraph", "Tree", "PointUndirectedGraph", "PointDirectedGraph", "PointTree")]
@@ -1293,6 +1307,7 @@ class C14(Check):
             "full_alphabet_variants": list(FULL_VARIANTS),
             "boundary_variants": B_VARIANTS,
             "zero_weight_csgraph_ops": ZERO_WEIGHT_CSGRAPH_OPS,
+            "zop_csgraph_ops": ZOP_CSGRAPH_OPS,
             "argument_forms": FORM_FACTORS,
             "argument_form_families": ["%s/%s" % f for f in FORM_FAMILIES],
             "argument_form_sizes": FORM_SIZES,
@@ -1303,7 +1318,7 @@ class C14(Check):
         return [
             "argument forms (kind X roots): one argument kind at a time (edge array dtype/container/layout, adjacency dtype/container/layout, point dtype/layout, numpy-scalar vertex numbers, read-only / strided masks, numpy n_vertices) on chains, cycles, stars, complete graphs and binary trees of 9 and 40 vertices, abstract and point-carrying; only forms the unchanged tree accepts (outer tuples, float vertex numbers, float16 / non-csr / list adjacency, list points, integer masks are not letters); expectations are float64 values of the payload",
             "boundary letters (kind B roots, every undirected graph n<=4, digraph n<=3, rooted tree n<=4, abstract and point-carrying): csr adjacency with every position stored (non-edges as explicit zeros) / with one stored zero; edges removed by assigning 0 into adjacency_matrix; weights of both signs; all weights equal; on every root vertex numbers -1 and n (documented ValueError) and masks of length n-1 / n+1; predefined families on 1, 2, 3 vertices and 1x1 / 1x4 / 4x1 / 2x2 grids",
-            "a stored zero is a non-edge (documented).  ZERO_WEIGHT_CSGRAPH_OPS=%r: while False, stored-zero letters are not given the queries that menpo delegates to scipy.csgraph (paths, shortest paths, distances, MST, Tree construction, tree masks), which read a stored zero as a zero-weight edge on the unchanged tree (reported defect)" % ZERO_WEIGHT_CSGRAPH_OPS,
+            "a stored zero is a non-edge (documented).  Construction letters az / az1 get the whole alphabet (paths, shortest paths, distances, MST, Tree construction, tree masks included; ZERO_WEIGHT_CSGRAPH_OPS=%r).  The 'zop' letters assign 0 into the public adjacency_matrix AFTER construction: that mutates a public attribute behind the object's back and is outside the property, so they are asked only the queries that never reach scipy.csgraph (ZOP_CSGRAPH_OPS=%r)" % (ZERO_WEIGHT_CSGRAPH_OPS, ZOP_CSGRAPH_OPS),
             "[interp] weighted shortest paths are judged only where they are defined (no negative weight, or an acyclic digraph); minimum_spanning_tree with a root outside [0, n-1] and PointTree.init_2d_grid on one-row / one-column grids are not judged",
             "simple graphs only (no self loops); weights are distinct positive integers stored as floats, so all sums are exact",
             (
